@@ -284,7 +284,11 @@ impl MarkdownEventsReader {
                     DocumentInline::Link(Link {
                         inlines: vec![],
                         target: Target {
-                            url: dest_url.to_string(),
+                            // <me@example.com> is a mail address, not the name of a note
+                            url: match link_type {
+                                LinkType::Email => format!("mailto:{}", dest_url),
+                                _ => dest_url.to_string(),
+                            },
                             title: title.to_string(),
                         },
                         title: title.to_string(),
